@@ -281,6 +281,30 @@ def substring_family(report, scen, rng):
         report.count("substring_family_filters")
 
 
+def long_value_family(report, scen, rng):
+    """the family of long tag values that agree on a long beginning (469 … 3000 characters, lib/qscen.long_family), each member stored under
+    one event, every member asked for alone and in pairs: whatever a backend does with long values — truncating, hashing, skipping the
+    index entry — an answer may only hold the events that carry exactly the requested value"""
+    from lib import gen
+
+    fam = qscen.long_family(rng)
+    name = rng.choice(["t", "r", "e"])
+    evs = []
+    for i, v in enumerate(fam):
+        evs.append({"id": gen.mkid(rng), "pubkey": rng.choice(gen.AUTHORS[:2]), "created_at": gen.T0 + i, "kind": rng.choice([1, 1, 7]),
+                    "tags": [[name, v]] + ([["t", "short"]] if rng.random() < 0.3 else []), "content": "", "sig": "00" * 64})
+    scen.load(evs)
+    asks = [[v] for v in fam] + [rng.sample(fam, 2) for _ in range(4)] + [[fam[0][:100]], [fam[5][:511]], [fam[-1] + "x"]]
+    for vals in asks:
+        for f in ({"#" + name: vals}, {"#" + name: vals, "kinds": [1, 7]}):
+            for rec in (scen.ask_kv(dict(f)), scen.ask_sql([dict(f)])):
+                oracle(report, rec)
+                if rec is not None and rec["ids"] is not None:
+                    report.case((rec["backend"], "long", repr([len(x) for x in vals]), repr(sorted(f))), nontrivial=len(rec["ids"]) > 0,
+                                sample={"backend": rec["backend"], "value_lengths": [len(x) for x in vals], "returned": len(rec["ids"])})
+        report.count("long_value_family_filters")
+
+
 def replay_one(report, scen, r):
     scen.load(r["events"])
     if r["backend"] == "kv":
@@ -316,6 +340,8 @@ def run(report, tier, seed):
             run_case(report, scen, rng, adversarial=True)
         for i in range(8 if tier == "quick" else 100):
             substring_family(report, scen, rng)
+        for i in range(2 if tier == "quick" else 30):
+            long_value_family(report, scen, rng)
     finally:
         scen.close()
         drv.close()
